@@ -385,4 +385,18 @@ example (w : Bytes) (hw : w.length = 300) (validL3 : Bytes → Bool) (hv : valid
     (by simp)).1
   simpa [congestionStep] using this
 
+/-- **C10, the sequence ranges of one sender's packets are disjoint.**  Packets sent one after the
+    other by one link service (any start value of the 64-bit counter, wrap-around included) get
+    pairwise different base sequence numbers as long as fewer than 2^64 fragment frames are
+    produced in total — which discharges the `hdisjoint` hypothesis of
+    `reassemble_any_interleaving` for traffic coming from one sender (up to three concurrent
+    messages in the property's quantifier; here: any number). -/
+theorem consecutive_sends_disjoint (cfg : TxCfg) (hmtu : specMinMtu ≤ cfg.mtu) (hfrag : cfg.fragEnabled = true)
+    (ps : List OutPkt) (st : TxSt) (hok : ∀ p ∈ ps, PktOk p) (htot : fragTotal cfg st ps < two64) :
+    ((msgsOfAll cfg st ps).map FMsg.base).Nodup :=
+  msgsOfAll_bases_nodup cfg hmtu hfrag ps st hok htot
+
+example : ((msgsOfAll { mtu := 128 } { nextSeq := 18446744073709551615 } []).map FMsg.base).Nodup :=
+  consecutive_sends_disjoint { mtu := 128 } (by decide) rfl [] _ (fun _ h => by simp at h) (by decide)
+
 end Ndn.C10
